@@ -82,7 +82,17 @@ func (d *dateObject) SetTime(time Time.Time) {
 	d.Set(timeToEpoch(time))
 }
 
+// timeClip: a time value is at most 8.64e15 ms away from the epoch (15.9.1.14).
+func timeClip(epoch float64) float64 {
+	if epoch > 8.64e15 || epoch < -8.64e15 {
+		return math.NaN()
+	}
+	return epoch
+}
+
 func (d *dateObject) Set(epoch float64) {
+	epoch = timeClip(epoch)
+
 	// epoch
 	d.epoch = epochToInteger(epoch)
 
